@@ -1307,10 +1307,18 @@ Lemma clause4 s a : Inv s -> booted_or_not s -> s_ok cfg s ->
   forallb (fun b => mem_N b (so_unlocked (observe cfg s))
                     || sync_exempt cfg b
                     || match a with
-                       | Finish q _ | FinishWait q =>
+                       | Finish q ok =>
                            N.eqb q 0 && match find_q 0 (so_queues (observe cfg s)) with
                                         | Some m => match qo_items m with
-                                                    | t :: _ => mem_N b (t_mids t)
+                                                    | t :: _ => (ok || t_allow t) && mem_N b (t_mids t)
+                                                    | [] => false
+                                                    end
+                                        | None => false
+                                        end
+                       | FinishWait q =>
+                           N.eqb q 0 && match find_q 0 (so_queues (observe cfg s)) with
+                                        | Some m => match qo_items m with
+                                                    | t :: _ => t_allow t && mem_N b (t_mids t)
                                                     | [] => false
                                                     end
                                         | None => false
@@ -1328,7 +1336,7 @@ Proof.
             In b (match find_queue (queues s) qn with Some q => fin_unl q ok (unlocked s) | None => unlocked s end) ->
             mem_N b (so_unlocked (observe cfg s)) = true
             \/ N.eqb qn 0 && match find_q 0 (so_queues (observe cfg s)) with
-                             | Some m => match qo_items m with t :: _ => mem_N b (t_mids t) | [] => false end
+                             | Some m => match qo_items m with t :: _ => (ok || t_allow t) && mem_N b (t_mids t) | [] => false end
                              | None => false end = true).
   { intros qn ok H. destruct (find_queue (queues s) qn) as [q|] eqn:F; [|left; now apply Old].
     unfold find_queue in F. apply find_some in F as [Hq En]. apply N.eqb_eq in En.
@@ -1341,11 +1349,11 @@ Proof.
     2:{ exfalso. cbn [forallb] in Pl. apply andb_true_iff in Pl as [Pl _]. apply plain_facts in Pl.
         destruct Pl as (_ & _ & _ & Mi & _). rewrite Mi in H. destruct H. }
     apply N.eqb_eq in Z. rewrite <- En, Z. cbn [N.eqb andb].
-    destruct (find_q_main cfg s q (inv_names s HI) Hq) as (qo & Fq & Iq). rewrite Z in Fq. rewrite Fq, Iq, I.
+    destruct (find_q_main cfg s q (inv_names s HI) Hq) as (qo & Fq & Iq). rewrite Z in Fq. rewrite Fq, Iq, I, C. cbn [andb].
     now apply mem_N_In. }
   destruct a; cbn [pre_unl] in Hb; try (rewrite (Old Hb); reflexivity).
   - destruct (Fin q ok Hb) as [H|H]; rewrite H; [reflexivity | now rewrite orb_true_r].
-  - destruct (Fin q false Hb) as [H|H]; rewrite H; [reflexivity | now rewrite orb_true_r].
+  - destruct (Fin q false Hb) as [H|H]; cbn [orb] in H; rewrite H; [reflexivity | now rewrite orb_true_r].
 Qed.
 
 End Run.
@@ -1731,10 +1739,18 @@ Lemma steps_ok_cons done prev a acts cur obs :
      && forallb (fun b => mem_N b (so_unlocked prev)
                           || sync_exempt cfg b
                           || match a with
-                             | Finish q _ | FinishWait q =>
+                             | Finish q ok =>
                                  N.eqb q 0 && match find_q 0 (so_queues prev) with
                                               | Some m => match qo_items m with
-                                                          | t :: _ => mem_N b (t_mids t)
+                                                          | t :: _ => (ok || t_allow t) && mem_N b (t_mids t)
+                                                          | [] => false
+                                                          end
+                                              | None => false
+                                              end
+                             | FinishWait q =>
+                                 N.eqb q 0 && match find_q 0 (so_queues prev) with
+                                              | Some m => match qo_items m with
+                                                          | t :: _ => t_allow t && mem_N b (t_mids t)
                                                           | [] => false
                                                           end
                                               | None => false
